@@ -36,6 +36,9 @@ type roundPlan struct {
 	// "first" before the majority (same block) | "earlier-block" one block before the majority.
 	// The minority then contains the relayer whenever the majority can do without its shares.
 	DissentOrder string `json:"do,omitempty"`
+	// update_valset: the message is a re-publication of the snapshot that is ALREADY live on the chain
+	// (a keep-warm / forced publish): consensus valset == new valset == the live snapshot
+	KeepWarm bool `json:"kw,omitempty"`
 }
 
 const (
@@ -110,7 +113,37 @@ func (w *wd) runRound(p roundPlan) {
 	var id uint64
 	switch {
 	case p.Reuse == reuseSameCalldata && p.Action == actValset:
-		// a second message for a snapshot that already went live through an accepted tx
+		// A second message whose call data is IDENTICAL to the one an accepted tx carries. The call
+		// data of update_valset has no message id: (consensus valset + signatures, new valset,
+		// relayer, gas estimate). Two publications of the snapshot that is live on the chain give
+		// the same bytes when relayer, estimate and signers coincide.
+		forced = w.keepWarmTx(ref)
+		if forced == nil {
+			// first let a faithful re-publication of the live snapshot go through
+			w.runRound(roundPlan{Action: actValset, Chain: indexOf(w.refs, ref), KeepWarm: true})
+			if w.failed || !w.usable(ref) {
+				w.rec.Count("rounds_skipped/no_tx_to_reuse", 1)
+				return
+			}
+			forced = w.keepWarmTx(ref)
+		}
+		if forced != nil {
+			// the used tx handed in again for a NEW publication at later heights / times (on forks)
+			w.resubmitLaterValset(ref, forced)
+			if w.failed {
+				return
+			}
+			// ... and right away on the real chain: wait for the block time at which the chain picks
+			// the same relayer again
+			if w.steerRelayer(ref, forced.Relayer) {
+				w.rec.Count("ops/relayer_rotation_awaited", 1)
+			}
+			id, ok = w.republish(ref, forced.Valset)
+			break
+		}
+		// no re-publication went through: any tx accepted for a snapshot of this chain (its call
+		// data differs in the consensus valset; the chain must refuse it as used all the same)
+		w.rec.Count("ops/keep_warm_tx_unavailable", 1)
 		for _, u := range w.usedTxs[actValset] {
 			if u.Chain == ref {
 				forced = u
@@ -141,6 +174,10 @@ func (w *wd) runRound(p roundPlan) {
 			return
 		}
 		id, ok = w.ensureMessage(ref, actUpload)
+		if ok && !w.failed {
+			// the used tx handed in for the still pending message at later heights (on forks)
+			w.resubmitLaterPending(ref, id, forced)
+		}
 	case p.Reuse == reuseOtherMessage:
 		if len(w.usedTxs[p.Action]) == 0 {
 			w.runRound(roundPlan{Action: p.Action, Chain: indexOf(w.refs, ref)})
@@ -173,6 +210,8 @@ func (w *wd) runRound(p roundPlan) {
 			}
 			id, ok = w.findMsg(ref, actHandover)
 		}
+	case p.KeepWarm && p.Action == actValset:
+		id, ok = w.republishLive(ref)
 	default:
 		id, ok = w.ensureMessage(ref, p.Action)
 	}
@@ -698,6 +737,7 @@ func (w *wd) attest(prs []*prepared, p roundPlan) {
 			}
 			u.Gas = a.gas
 			u.Signers = a.signers
+			u.PA, u.Relayer, u.Height = a.PAValset, a.assignee, w.c.Height
 			w.usedTxs[a.Action] = append(w.usedTxs[a.Action], u)
 		}
 	}
